@@ -33,6 +33,21 @@ def masked_first_byte_zero(key, hour, peers):
     return (plain[0] ^ ks(key, 2, seed, 0)[0]) == 0
 
 
+def encode_beacon(key, hour, peers):
+    """reference beacon encoder written from the format description (hashlib SHA-512, base 62)"""
+    v4 = [p for p in peers if len(p) == 6]
+    v6 = [p for p in peers if len(p) != 6]
+    plain = bytes([(hour >> 8) & 0xff, hour & 0xff, len(v4) & 0xff]) + b"".join(v4) + b"".join(v6)
+    seed = hashlib.sha512(plain).digest()[0]
+    out = bytearray()
+    for i in range(0, len(plain), 16):
+        k = ks(key, 2, seed, (i // 16) & 0xff)
+        out += bytes(a ^ b for a, b in zip(plain[i:i + 16], k))
+    out.append(seed ^ ks(key, 3, 0, 0)[0])
+    bg, en = markers(key)
+    return bg + b62(bytes(out)) + en
+
+
 def hx(s):
     return s.encode().hex() if s else "-"
 
@@ -61,6 +76,7 @@ class C17(Property):
     def gen(self, rng, tier):
         thorough = tier == "thorough"
         out = []
+        self._multi = {}
         rtext = lambda n, alpha=ALNUM: "".join(rng.choice(alpha) for _ in range(n))
         pws = PASSWORDS if thorough else PASSWORDS[:60]
         # 1. plain round trips over passwords / lists / hours
@@ -124,6 +140,27 @@ class C17(Property):
             else:
                 text = rtext(5) + bg + bg + rtext(12) + en + en + rtext(3)
             out.append("beacon_dec %s %d %s %s" % (key.hex() or "-", rng.randrange(65536), rng.choice(["none", "0", "24", "65535"]), hx(text)))
+        # 5. several beacons per text: concatenated, separated, overlapping by one character where the end
+        #    marker's last character equals the begin marker's first (tag "multi": expected = all of them in order)
+        overlap_pws = [pw for pw in PASSWORDS + ["secret%d" % i for i in range(400)] if markers(pw.encode())[1][-1] == markers(pw.encode())[0][0]]
+        for _ in range(1500 if thorough else 300):
+            pw = rng.choice(overlap_pws) if (overlap_pws and rng.random() < 0.5) else rng.choice(pws)
+            key = pw.encode()
+            bg, en = markers(key)
+            h = rng.randrange(65536)
+            n = rng.choice([2, 2, 3])
+            lists = [rand_peers(rng, rng.randrange(0, 4), rng.randrange(0, 2)) for _ in range(n)]
+            # skip lists hitting the 2^-8 class where the masked body starts with 0 and would be shorter (still decodable), fine
+            text = ""
+            for i, ps in enumerate(lists):
+                b = encode_beacon(key, h, ps)
+                if i and en[-1] == bg[0] and rng.random() < 0.5:
+                    text = text[:-1] + b                      # overlap by one character
+                else:
+                    text += rng.choice(["", "", "-", " \n", "::"]) + b
+            want = [p for ps in lists for p in ([q for q in ps if len(q) == 6] + [q for q in ps if len(q) != 6])]
+            self._multi[hx(text)] = want
+            out.append("beacon_dec %s %d none %s" % (key.hex() or "-", h, hx(text)))
         # bodies beyond 4096 bytes: the keystream block counter wraps (F14 shape); few, they are slow in the model
         for n in ([5530, 5600, 6100, 11100] if thorough else [5530, 5600]):
             key = rng.choice(pws).encode()
@@ -153,6 +190,13 @@ class C17(Property):
         if impl_out.startswith("panic"):
             return "beacon extraction panicked: " + impl_out
         t = line.split()
+        if t[0] == "beacon_dec" and t[4] in getattr(self, "_multi", {}):
+            want = self._multi[t[4]]
+            got = impl_out.split()[1]
+            got = [bytes.fromhex(x) for x in got.split(";")] if got != "-" else []
+            if got != want:
+                return "text with several beacons: recovered %d addresses, the beacons carry %d" % (len(got), len(want))
+            return None
         if t[0] != "beacon_rt":
             return None
         key, hour, ttl, now, pre, post, peers = self._rt_parts(line)
